@@ -442,7 +442,7 @@ PROPS = {
         ],
         "assumptions": ["targets are finite non-zero vectors normalized to within r3.Vector.Normalize's guarantee; edge endpoints are never antipodal"],
         "partial": ["ContainsClaim (float margin of ContainsPoint)", "DistanceAttained / DistanceLowerBound / MaxDistanceUpperBound (numeric; "
-                    "DistanceLowerBound and MaxDistanceUpperBound are REFUTED for the current code: distanceLowerBound_false, maxDistanceUpperBound_false)"],
+                    "the former NaN refutations (D28) are fixed: former_NaN_inputs_fixed; what is proved is distanceLowerBound_partial)"],
     },
     "C08": {
         # generator, quick n, thorough n (sharded over the cores by ./check; n/2 bare coverings + n/6 index/target
@@ -632,7 +632,7 @@ PROPS["C17"] = {
             "d = 0 for x = a or b (zero-endpoint), valid chord <= 4 (chord-invalid), threshold forms vs the computed distance "
             "judged UP TO THE DOCUMENTED ERROR BOUND (clause thresh fires only when the threshold form and the computed distance disagree by more than "
             "minUpdateDistanceMaxError; a literal 1-ulp disagreement inside the bound is not a failure — theorem not_thresholdAgrees records that it exists), "
-            "max distance (maxdist-err; KNOWN-class clause maxdist-rightangle when both endpoint chords are within 2^-45 of 2; thresh-max), DistanceFromSegment angle vs chord by a Taylor enclosure of sin (angle-conv), "
+            "max distance (maxdist-err; clause maxdist-rightangle (formerly D41, fixed 27d15c6) when both endpoint chords are within 2^-45 of 2; thresh-max), DistanceFromSegment angle vs chord by a Taylor enclosure of sin (angle-conv), "
             "Project on the great circle / between a and b / realising the distance (project-circle, project-between, project-dist, "
             "all replaced by the single KNOWN-class clause project-nearpole when x is within ~5 degrees of the pole of the edge: sin^2 angle(x, a x b) < 2^-7), Interpolate(0)=a, Interpolate(1)=b bitwise, "
             "Interpolate(0.5) vs a+b, Interpolate(DistanceFraction(x)) vs x for x on the edge, Interpolate(DistanceFraction(Project x)) vs "
